@@ -110,4 +110,20 @@ PROPS = {
                       "the float comparison card/total < threshold is represented by an exact rational (midpoint rounding argument, DESIGN.md 6/C13)"],
         assumptions=["counts below 2^50", "termination of the retry loop is not part of C13 (C04/C08)"],
     ),
+    "C17": dict(
+        runs=[
+            dict(harness="obf", name="feistel",
+                 args=lambda tier, seed, casedir, coq: ["feistel", "--n", str(q(tier, 200, 5000)), "--seed", str(seed)], coq_timeout=3000),
+            dict(harness="obf", name="obf",
+                 args=lambda tier, seed, casedir, coq: ["obf", "--n", str(q(tier, 120, 3000)), "--seed", str(seed)], coq_timeout=3000),
+        ],
+        rule="feistel: byte strings of every length 0..13 (all small lengths several times), 2-10 rounds, through the real FPECipher.Encrypt; the round function is tabulated "
+             "from the library's own helpers and the model must reproduce the ciphertext byte for byte; obf: generated traces/logs/metrics (attributes of every value type incl. "
+             "nested lists/maps, empty, one-byte and non-ASCII strings, empty keys) through real processor instances in both modes (encrypt_all; lists with listed and unlisted keys "
+             "present, also an empty list), 1-3 documents per instance; input and output aligned by the model to extract the substitution table, which must be one length-preserving "
+             "injective function per instance, and the model run with that table must reproduce the output exactly",
+        trusted_base=["SHA-256 and the key are abstracted into an arbitrary length-preserving round function F (the theorems hold for every F)",
+                      "pdata Map/Slice semantics (Range order = insertion order, Put overwrites in place, CopyTo replaces) modelled as list operations"],
+        assumptions=["attribute maps have distinct keys (pdata invariant)", "list mode: a renamed listed key does not collide with another key of the same map (visible hypothesis of C17_structure_list)"],
+    ),
 }
